@@ -50,7 +50,9 @@ Dbs == [ d1 |-> [tabs |-> (T :> [cols |-> TabA, rows |-> <<<<IntV(1), sa>>, <<In
 \* ---- layout choices -------------------------------------------------------
 LayoutChoices ==
   [refw : {2, 3}, cpid : {0, 1252, 65001}, holes : {"none", "empty", "stale"}, dup : BOOLEAN, over : BOOLEAN,
-   validation : BOOLEAN, unsorted : BOOLEAN, int1 : BOOLEAN, ps : {"asc", "desc", "gap"}]
+   validation : BOOLEAN, unsorted : BOOLEAN, int1 : BOOLEAN, ps : {"asc", "desc", "gap", "nocp", "cp0"}]
+\* ps: layout of the summary property set - ids ascending / descending / section after a gap; "nocp": no
+\* code-page property, "cp0": code-page property 0 (both: the default page; the image's summary text is UTF-8)
 
 \* the catalog rows as VALUES for a set of tables
 CatalogRows(tabs, withV) ==
@@ -110,12 +112,12 @@ Mix(w, h, d, o, v, u) == (IF w = 3 THEN 1 ELSE 0) + (CASE h = "none" -> 0 [] h =
 CoreChoices ==
   {[refw |-> w, holes |-> h, dup |-> d, over |-> o, validation |-> v, unsorted |-> u,
     cpid |-> <<0, 1252, 65001>>[(Mix(w, h, d, o, v, u) % 3) + 1],
-    ps |-> <<"asc", "desc", "gap">>[((Mix(w, h, d, o, v, u) \div 3) % 3) + 1],
+    ps |-> <<"asc", "desc", "gap", "nocp", "cp0">>[((Mix(w, h, d, o, v, u) \div 3) % 5) + 1],
     int1 |-> Mix(w, h, d, o, v, u) % 2 = 1] :
      w \in {2, 3}, h \in {"none", "empty", "stale"}, d \in BOOLEAN, o \in BOOLEAN, v \in BOOLEAN, u \in BOOLEAN}
 Images == {[db |-> d, c |-> c] : d \in {"d1", "d2", "d3"}, c \in CoreChoices}
           \cup {[db |-> "d2", c |-> [refw |-> w, holes |-> "none", dup |-> FALSE, over |-> FALSE, validation |-> TRUE, unsorted |-> FALSE,
-                                     cpid |-> p, ps |-> l, int1 |-> i]] : w \in {2, 3}, p \in {0, 1252, 65001}, l \in {"asc", "desc", "gap"}, i \in BOOLEAN}
+                                     cpid |-> p, ps |-> l, int1 |-> i]] : w \in {2, 3}, p \in {0, 1252, 65001}, l \in {"asc", "desc", "gap", "nocp", "cp0"}, i \in BOOLEAN}
 Plain == [refw |-> 2, cpid |-> 65001, holes |-> "none", dup |-> FALSE, over |-> FALSE, validation |-> TRUE, unsorted |-> FALSE, int1 |-> FALSE, ps |-> "asc"]
 \* further axes, one at a time: the long form and the 32-column table under both reference widths and pool shapes;
 \* every supported code-page id (d1 holds ASCII text only, so that every page represents it)
@@ -134,7 +136,8 @@ QuickImages ==
    [db |-> "d1", c |-> [refw |-> 2, cpid |-> 65001, holes |-> "empty", dup |-> FALSE, over |-> FALSE, validation |-> TRUE, unsorted |-> TRUE, int1 |-> FALSE, ps |-> "gap"]],
    [db |-> "d3", c |-> [refw |-> 2, cpid |-> 0, holes |-> "none", dup |-> FALSE, over |-> FALSE, validation |-> FALSE, unsorted |-> FALSE, int1 |-> TRUE, ps |-> "desc"]],
    [db |-> "d5", c |-> [refw |-> 3, cpid |-> 1252, holes |-> "empty", dup |-> FALSE, over |-> FALSE, validation |-> TRUE, unsorted |-> TRUE, int1 |-> FALSE, ps |-> "asc"]],
-   [db |-> "d1", c |-> [Plain EXCEPT !.cpid = 932]], [db |-> "d1", c |-> [Plain EXCEPT !.cpid = 28598]]}
+   [db |-> "d1", c |-> [Plain EXCEPT !.cpid = 932]], [db |-> "d1", c |-> [Plain EXCEPT !.cpid = 28598]],
+   [db |-> "d2", c |-> [Plain EXCEPT !.ps = "nocp"]], [db |-> "d1", c |-> [Plain EXCEPT !.ps = "cp0", !.refw = 3]]}
 
 ImgJ(i, img) ==
   [db |-> i.db, c |-> i.c, ptype |-> "Installer", cp |-> i.c.cpid, longrefs |-> i.c.refw = 3,
